@@ -52,6 +52,7 @@ type Violation struct {
 	Model    map[string]interface{} // label -> value
 	Trail    []int64
 	KnownIDs []string // non-empty: falls entirely inside known classes
+	SelectForks int   // >0: the path depends on Go's choice among ready select arms
 	Harness  string
 	Trace    []string
 }
@@ -97,6 +98,7 @@ type Run struct {
 	errID   int
 	funcsHit map[string]bool
 	autoAdv int
+	selectForks int
 	mapOrderAll bool
 }
 
@@ -379,7 +381,7 @@ func (r *Run) reportViolation(kind, id string, pos token.Pos, viol *Term) {
 	}
 	res, model := r.m.solver.CheckModel(ex2, r.inputTerms())
 	if res == "sat" {
-		v := Violation{Kind: kind, ID: id, Pos: r.posStr(pos), Model: r.modelFrom(model), Trail: append([]int64{}, r.trail...)}
+		v := Violation{Kind: kind, ID: id, Pos: r.posStr(pos), Model: r.modelFrom(model), Trail: append([]int64{}, r.trail...), SelectForks: r.selectForks}
 		r.violations = append(r.violations, v)
 		return
 	}
